@@ -898,6 +898,68 @@ def rbac_prelude(g, r):
     return steps
 
 
+def rbac_cascade_steps(g, r):
+    """A hierarchy with at least two children under one parent at some level (teams under an org, roles
+    under a team, measurement permissions under a role, memberships of a token / a team), then an
+    individual delete of ONE child, then a cascading delete of the parent (or of an ancestor): the
+    sibling must be found through the traversal index and removed as well."""
+    steps = []
+
+    def add(c):
+        idx = g.next_idx()
+        g.note_created(c, idx)
+        steps.append({"k": "cmd", "idx": idx, "cmd": c})
+        return idx
+    t1 = add({"op": "create_token", "token": tok("t1")})
+    t2 = add({"op": "create_token", "token": tok("t2", prefix=r.choice(PREFIXES))})
+    o1 = add({"op": "create_org", "org": mk(ZERO_ORG, name="n1", created=5)})
+    teams = [add({"op": "create_team", "team": mk(ZERO_TEAM, org=o1, name=nm, created=5)}) for nm in NAMES[:r.choice([1, 2, 2, 3])]]
+    roles = {}
+    for tm in teams[:2]:
+        roles[tm] = [add({"op": "create_role", "role": mk(ZERO_ROLE, team=tm, pat=r.choice(PATS), perms="read", created=5)})
+                     for _ in range(r.choice([1, 2, 2, 3]))]
+    mps = {}
+    for tm in list(roles)[:2]:
+        for ro in roles[tm][:2]:
+            mps[ro] = [add({"op": "create_mperm", "mperm": mk(ZERO_MPERM, role=ro, pat=r.choice(["cpu", "mem", "*"]), perms="read", created=5)})
+                       for _ in range(r.choice([0, 2, 2, 3]))]
+    mems = []
+    for tk in (t1, t2):
+        for tm in r.sample(teams, min(len(teams), r.choice([1, 2]))):
+            mems.append((tk, tm, add({"op": "add_member", "mem": mk(ZERO_MEM, token=tk, team=tm, created=5)})))
+    if r.random() < 0.25:
+        steps.append({"k": "snap"})
+    # leaf deletes of single children
+    for _ in range(r.choice([1, 1, 2, 3])):
+        k = r.choice(["mp", "mp", "mp", "role", "role", "team", "mem", "mem"])
+        if k == "mp" and any(mps.values()):
+            ro = r.choice([x for x in mps if mps[x]])
+            add({"op": "delete_mperm", "id": mps[ro].pop(r.randrange(len(mps[ro])))})
+        elif k == "role" and any(roles.values()):
+            tm = r.choice([x for x in roles if roles[x]])
+            add({"op": "delete_role", "id": roles[tm].pop(r.randrange(len(roles[tm])))})
+        elif k == "team" and len(teams) > 1:
+            add({"op": "delete_team", "id": teams.pop(r.randrange(len(teams)))})
+        elif k == "mem" and mems:
+            tk, tm, _ = mems.pop(r.randrange(len(mems)))
+            add({"op": "remove_member", "token": tk, "team": tm})
+    if r.random() < 0.25:
+        steps.append({"k": "snap"})
+    # cascades from a parent / an ancestor
+    for _ in range(r.choice([1, 2, 2, 3])):
+        k = r.choice(["role", "role", "team", "team", "org", "token"])
+        if k == "role" and any(roles.values()):
+            tm = r.choice([x for x in roles if roles[x]])
+            add({"op": "delete_role", "id": r.choice(roles[tm])})
+        elif k == "team" and teams:
+            add({"op": "delete_team", "id": r.choice(teams)})
+        elif k == "org":
+            add({"op": "delete_org", "id": o1})
+        else:
+            add({"op": "delete_token", "id": r.choice([t1, t2])})
+    return steps
+
+
 def node_prelude(g, r):
     """two or three registered writers, usually one of them already promoted: failovers, rejoins and
     removals of the primary then start from a state in which there is something to break"""
@@ -917,6 +979,12 @@ def gen_case(rng, family, dump_all=False):
     steps = []
     if family in ("node", "node_rbac") and rng.random() < 0.6:
         steps += node_prelude(g, rng)
+    if family == "rbac_cascade":
+        steps += rbac_cascade_steps(g, rng)
+        steps += g.sequence("rbac", rng.randint(0, 3))
+        n = len(steps)
+        dump_at = list(range(n)) if dump_all else sorted({n - 1, rng.randrange(n), rng.randrange(n)})
+        return {"family": family, "steps": steps, "dump_at": dump_at, "prefix": True}
     if family in ("rbac", "node_rbac", "mixed") and rng.random() < 0.6:
         steps += rbac_prelude(g, rng)
     steps += g.sequence(family, rng.randint(3, 9))
@@ -1097,7 +1165,7 @@ def run_property(res, pid, tier, seed, theorems, modules, extra_targets, familie
                        "rejected command and >= 3 steps (snapshot at an inner prefix); distinct by step list")
     res.cov["model_vs_impl_disagreements"] = len(dis)
     res.cov["oracle_failures"] = len(ofail)
-    res.cov["histogram"] = {"ops": op_histogram(cases), "steps_per_case": {str(k): sum(1 for c in cases if len(c["steps"]) == k) for k in range(1, 22)},
+    res.cov["histogram"] = {"ops": op_histogram(cases), "steps_per_case": {str(k): sum(1 for c in cases if len(c["steps"]) == k) for k in range(1, 41)},
                             "families": {f: sum(1 for c in cases if c.get("family", "witness") == f) for f in sorted({c.get("family", "witness") for c in cases})},
                             "accepted_steps": sum(sum(1 for b in o["res"] if b) for o in outs), "rejected_steps": sum(sum(1 for b in o["res"] if not b) for o in outs),
                             "prefix_experiments": sum(len(o["snap_eq"] or []) for o in outs),
